@@ -238,9 +238,10 @@ def fill_holes(mesh):
             # as otherwise the edge would be shared by four faces
             # the same goes for a diagonal which would produce a zero- area
             # triangle, i.e. if three corners of the hole are collinear
+            # where zero- area is relative to the size of the hole
+            area = triangles.area(mesh.vertices[[hole[[0, 1, 2]], hole[[2, 3, 0]]]])
             if (mesh.edges_sorted == np.sort(hole[[0, 2]])).all(axis=1).any() or (
-                triangles.area(mesh.vertices[[hole[[0, 1, 2]], hole[[2, 3, 0]]]]).min()
-                < tol.merge
+                area.min() < tol.merge * area.sum()
             ):
                 hole = np.roll(hole, 1)
             face_A = hole[[0, 1, 2]]
